@@ -159,9 +159,13 @@ class Live(JupyterMixin, RenderHook):
                 if self.auto_refresh and self._refresh_thread is not None:
                     self._refresh_thread.stop()
                 # allow it to fully render on the last even if overflow
+                vertical_overflow = self.vertical_overflow
                 self.vertical_overflow = "visible"
-                if not self.console.is_jupyter:
-                    self.refresh()
+                try:
+                    if not self.console.is_jupyter:
+                        self.refresh()
+                finally:
+                    self.vertical_overflow = vertical_overflow
                 if self.console.is_terminal:
                     self.console.line()
             finally:
